@@ -407,7 +407,8 @@ RawSigsInit(F, cfg) ==
     \cup NeedRaw(F, vt \o ".tkhd", "init/tkhd", LAMBDA b :
               FieldTableSigs("C19", "init/tkhd", b, TkhdSize(b), TkhdFieldsV(b, 1, cfg.w, cfg.h, FALSE))
               \cup (IF ~TkhdEnabled(b) THEN {LSig("C19", "Recovered", "init/tkhd", "track-not-enabled")} ELSE {}))
-    \cup NeedRaw(F, vt \o ".mdia.mdhd", "init/mdhd", LAMBDA b : FieldTableSigs("C19", "init/mdhd", b, MdhdSize(b), MdhdFieldsV(b, cfg.timescale)))
+    \cup NeedRaw(F, vt \o ".mdia.mdhd", "init/mdhd", LAMBDA b : FieldTableSigs("C19", "init/mdhd", b, MdhdSize(b),
+                   MdhdFieldsV(b, cfg.timescale) \o << Fld("language", IF Ver(b) = 1 THEN 32 ELSE 20, 2, << 85, 196 >>) >>))     \* no language can be configured: 'und', pad bit 0
     \cup NeedRaw(F, vt \o ".mdia.hdlr", "init/hdlr", LAMBDA b : FieldTableSigs("C19", "init/hdlr", b, -1, HdlrFields(VIDE))
               \cup (IF Len(b) < 25 \/ b[Len(b)] # 0 THEN {LSig("C19", "BoxLayout", "init/hdlr", "name")} ELSE {}))
     \cup NeedRaw(F, vt \o ".mdia.minf.vmhd", "init/vmhd", LAMBDA b : FieldTableSigs("C19", "init/vmhd", b, 12,     \* 14496-12 12.1.2: FullBox(version 0, flags 1)
